@@ -243,6 +243,30 @@ def check_class(rec, cls, fl, tag, hdesc):
             got = list(inst.iter_child_fields(sort_keys=sort))
             if len(got) != len(exp_iter) or any(g[0] is not e[0] or g[1] is not own[e[1]] for g, e in zip(got, exp_iter)):
                 bad("iter_child_fields", f"sort={sort}: differs from spec", variant=vname, sort=sort)
+            # re-entrancy: the four accessors (and two calls of one accessor) advanced alternately, also on a second instance
+            ev()
+            other = cls(**kw)
+            gens = [inst.get_child_nodes(sort_keys=sort), inst.get_child_nodes(sort_keys=not sort), inst.get_child_nodes_with_field(sort_keys=sort),
+                    inst.iter_child_fields(sort_keys=sort), inst.get_properties(sort_keys=sort), other.get_child_nodes(sort_keys=sort),
+                    other.get_properties(sort_keys=sort)]
+            alone = [list(inst.get_child_nodes(sort_keys=sort)), list(inst.get_child_nodes(sort_keys=not sort)), list(inst.get_child_nodes_with_field(sort_keys=sort)),
+                     list(inst.iter_child_fields(sort_keys=sort)), list(inst.get_properties(sort_keys=sort)), list(other.get_child_nodes(sort_keys=sort)),
+                     list(other.get_properties(sort_keys=sort))]
+            outs = [[] for _ in gens]
+            live = list(zip(gens, outs))
+            while live:
+                for g, o in list(live):
+                    try:
+                        o.append(next(g))
+                    except StopIteration:
+                        live.remove((g, o))
+
+            def same(a, b):
+                return len(a) == len(b) and all((x is y) or (isinstance(x, tuple) and len(x) == len(y) and all(p is q or p == q for p, q in zip(x, y))) for x, y in zip(a, b))
+
+            if not all(same(o, a) for o, a in zip(outs, alone)):
+                bad("re-entrancy", f"sort={sort}: accessors advanced alternately yield other sequences than each alone", variant=vname, sort=sort)
+            del other
             if not sort:
                 ev()
                 got = inst.children
